@@ -100,8 +100,7 @@ Verdict(r, mode) ==
                ELSE {}
   IN IF run.bad # 0 THEN << {<<"guard", ToString(run.bad), "">>}, {} >>
      ELSE IF o.err # ""
-          THEN << {<<"build", o.err, IF gen /\ \E j \in 1..n : TwoFileTypedefs(envs[j]) /\ ~Ms[j].ok
-                                     THEN "emit:FILE-typedef'ed-twice" ELSE "">>}, {} >>
+          THEN << {<<"build", o.err, "">>}, {} >>
      ELSE << vSame \cup vK \cup vLay \cup vReach, dSame >>
 
 TInit == k \in 1..Len(Traces) /\ done = FALSE /\ cenv = EnvInit /\ hist = <<>> /\ variant = "faithful" /\ chain = <<>>
